@@ -63,7 +63,12 @@ where
 }
 
 fn gen_data<A: Abc>(rng: &mut impl Rng, w: usize) -> Vec<Vec<usize>> {
-    let n = rng.gen_range(5..=24);
+    gen_data_n::<A>(rng, w, 0)
+}
+
+/// `many` > 0: that many sequences (data sets beyond 32 and 64 sequences)
+fn gen_data_n<A: Abc>(rng: &mut impl Rng, w: usize, many: usize) -> Vec<Vec<usize>> {
+    let n = if many > 0 { many } else { rng.gen_range(5..=24) };
     let maxlen = (w + 50).min(90);
     // a planted motif makes zoops inclusions / exclusions both happen
     let motif = random_ranks::<A>(rng, w, 0.0);
@@ -101,6 +106,22 @@ pub fn record(rec: &mut Recorder, seed: u64, thorough: bool) {
     }
     let runs = if thorough { 60 } else { 16 };
     let steps = if thorough { 1500 } else { 220 };
+    // data sets of more than 32 / 64 sequences, zero-or-one mode (membership of each sequence tracked separately)
+    for (k, &n) in (if thorough { vec![33usize, 48, 65, 100, 130] } else { vec![48usize, 70] }).iter().enumerate() {
+        let w = [4usize, 7][k % 2];
+        let data = gen_data_n::<Dna>(&mut r, w, n);
+        let rs: u64 = r.gen();
+        let evs = run_once::<Dna>(&data, w, true, 2 + k % 3, None, Some(10_000), rs, if thorough { 900 } else { 260 }, None);
+        rec.reset();
+        rec.class("zoops");
+        rec.class("more_than_32_sequences");
+        let mut prev = usize::MAX; let mut grew = false;
+        for e in evs {
+            if let Some(act) = e.get("post").and_then(|p| p.get("active")).and_then(|x| x.as_array()) { if prev != usize::MAX && act.len() != prev { grew = true; } prev = act.len(); }
+            rec.emit(e);
+        }
+        if grew { rec.class("zoops_membership_changed"); }
+    }
     for run in 0..runs {
         let w = [1usize, 2, 3, 5, 8, 12, 17, 20][run % 8];
         let zoops = run % 2 == 1;
